@@ -177,3 +177,94 @@ func vpC03_O1() {
 		vpAssert("different secrets under one label are rejected", !ok)
 	}
 }
+
+func init() {
+	vpHarnesses["vpC03_O2"] = vpC03_O2
+}
+
+// C03-O2: three proofs, every pattern of equal/different secrets and every
+// labelling over two labels (or no labels at all): the list is accepted exactly
+// when all proofs that share a label (all proofs, without labels) were made with
+// the same secret - also when the proofs sharing a label are not neighbours.
+func vpC03_O2() {
+	pk, sk := vpKeys(0, 3, 1024, false)
+	secrets := []*big.Int{vpBigBits("s1", 255), vpBigBits("s2", 255), vpBigBits("s3", 255)}
+	vpAssume(secrets[0].Cmp(secrets[1]) != 0 && secrets[0].Cmp(secrets[2]) != 0 && secrets[1].Cmp(secrets[2]) != 0)
+	// which secret each proof uses: (0,0,0), (0,0,1), (0,1,0), (0,1,1), (0,1,2)
+	patterns := [][3]int{{0, 0, 0}, {0, 0, 1}, {0, 1, 0}, {0, 1, 1}, {0, 1, 2}}
+	pat := patterns[vpChoose("secretPattern", len(patterns))]
+	ctx, nonce := vpBigBits("ctx", 256), vpBigBits("nonce", 80)
+	var builders ProofBuilderList
+	for i := 0; i < 3; i++ {
+		kind := 0
+		if i == 1 {
+			kind = vpChoose("kind1", 2)
+		}
+		builders = append(builders, vpBuilder(i, kind, pk, sk, secrets[pat[i]], ctx))
+	}
+	keys := []*gabikeys.PublicKey{pk, pk, pk}
+	pl, err := builders.BuildProofList(ctx, nonce, false)
+	vpAssume(err == nil)
+	vpAssume(pl[0].(interface{ Challenge() *big.Int }).Challenge().Sign() != 0)
+	var labels []string
+	lab := [3]int{}
+	if vpBool("labelled") {
+		names := []string{"x", "y"}
+		lab = [3]int{0, vpChoose("label1", 2), vpChoose("label2", 2)}
+		labels = []string{names[lab[0]], names[lab[1]], names[lab[2]]}
+	}
+	expect := true
+	for i := 0; i < 3; i++ {
+		for j := i + 1; j < 3; j++ {
+			if lab[i] == lab[j] && pat[i] != pat[j] {
+				expect = false
+			}
+		}
+	}
+	ok := pl.Verify(keys, ctx, nonce, false, labels)
+	if expect {
+		vpAssert("three proofs with one secret per label are accepted", ok)
+	} else {
+		vpAssert("three proofs with different secrets under one label are rejected", !ok)
+	}
+}
+
+func init() {
+	vpHarnesses["vpC02_O3"] = vpC02_O3
+}
+
+// C02-O3: what binds a proof list to its session is the challenge. With the
+// real HashCommit (DER + SHA-256 modelled as an injective encoding under an
+// injective hash; natively the real ones): the challenge over 0..2 arbitrary
+// contributions changes whenever the context, the nonce, any contribution or
+// the session flag changes - for both values of the flag.
+func vpC02_O3() {
+	n := vpChoose("ncontrib", 3)
+	contribs := make([]*big.Int, n)
+	for i := range contribs {
+		contribs[i] = vpBig(fmt.Sprintf("contrib%d", i))
+	}
+	ctx, nonce := vpBig("ctx"), vpBig("nonce")
+	issig := vpBool("issig")
+	base := createChallenge(ctx, nonce, contribs, issig)
+	other := vpBig("other")
+	var changed *big.Int
+	switch vpChoose("changed", 4) {
+	case 0:
+		vpAssume(other.Cmp(nonce) != 0)
+		changed = createChallenge(ctx, other, contribs, issig)
+	case 1:
+		vpAssume(other.Cmp(ctx) != 0)
+		changed = createChallenge(other, nonce, contribs, issig)
+	case 2:
+		vpAssume(n > 0)
+		j := vpChoose("j", n)
+		vpAssume(other.Cmp(contribs[j]) != 0)
+		c2 := append([]*big.Int{}, contribs...)
+		c2[j] = other
+		changed = createChallenge(ctx, nonce, c2, issig)
+	case 3:
+		changed = createChallenge(ctx, nonce, contribs, !issig)
+	}
+	vpAssert("the challenge depends on context, nonce, every contribution and the session flag", changed.Cmp(base) != 0)
+}
